@@ -6,6 +6,7 @@ CONSTANTS
   NotifyMode = "drop"
   TempApps = {}
   TwoPhaseApps = {}
+  DrainOnlyApps = {}
   ExitMode = "recheck"
 INVARIANTS FIFO DrainSound NoHang LockOK
 PROPERTIES FIFOStep 
